@@ -70,6 +70,13 @@ func zzC05_BLS_pubkey(n int, compressedAPI bool) {
 	assertEqBytes(pk.EncodeCompressed(), b0, "EncodeCompressed agrees")
 	k := pk.(*pubKeyBLSBLS12381)
 	verifAssert(k.isIdentity == (b0[0]&0x40 != 0), "identity flag iff infinity encoding")
+	// the key object does not alias the caller's buffer: recycling the buffer does not change the key
+	for i := range b {
+		b[i] ^= 0xa5
+	}
+	assertEqBytes(pk.Encode(), b0, "the decoded key still encodes to the accepted bytes after the caller reuses its buffer")
+	pk2, err2 := DecodePublicKey(BLSBLS12381, b0)
+	verifAssert(bAnd(err2 == nil, pk2.Equals(pk)), "and still equals a fresh decoding of those bytes")
 	verifReach("pubkey accepted")
 }
 
@@ -79,6 +86,11 @@ func zzC05_BLS_privkey(n int) {
 	b := nondetBytes(n)
 	b0 := append([]byte{}, b...)
 	sk, err := DecodePrivateKey(BLSBLS12381, b)
+	if err == nil {
+		for i := range b { // the key does not alias the caller's buffer
+			b[i] ^= 0xa5
+		}
+	}
 	inRange := false
 	if n == 32 {
 		inRange = refScalarInRange(b0)
